@@ -8,8 +8,8 @@ cd $WT || exit 2
 git checkout -q -- src 2>/dev/null; git clean -qfd src 2>/dev/null
 git apply seeded.patch || { echo "RESULT $ID patch-does-not-apply"; exit 1; }
 SUITE=$(cargo test --offline --lib 2>&1 | grep -E "^test result" | head -1)
-DEMO_WITH=$(cargo test --offline --test seeded_demo 2>&1 | grep -E "^test result" | tail -1)
+FEAT=""; grep -q "feature = \"test-utils\"" tests/seeded_demo.rs && FEAT="--features test-utils"; DEMO_WITH=$(cargo test --offline $FEAT --test seeded_demo 2>&1 | grep -E "^test result" | tail -1)
 git apply -R seeded.patch
-DEMO_WITHOUT=$(cargo test --offline --test seeded_demo 2>&1 | grep -E "^test result" | tail -1)
+DEMO_WITHOUT=$(cargo test --offline $FEAT --test seeded_demo 2>&1 | grep -E "^test result" | tail -1)
 git apply seeded.patch
 echo "RESULT $ID files=[$(grep '^+++ ' seeded.patch | tr '\n' ' ')] suite=[$SUITE] with=[$DEMO_WITH] without=[$DEMO_WITHOUT]"
